@@ -6,6 +6,9 @@ property oracle on the real code's outputs.  Streams:
   (a) write_at / open modes   vs io.BytesIO and a real file (seek + write, all four open modes)
   (b) sock_trace              vs a real asyncio.StreamReader fed the same segments on the same
                               schedule;  file_trace vs BytesIO.read / file.read
+  (b2) timed_trace            vs the real ThrottleStreamIO.read / iter_by_block on a virtual clock
+                              (segments fed at scripted instants, every wait() sleeping a scripted
+                              delay): same blocks at the same instants
   (c) stor_loop               vs the real AsyncStreamIterator over scripted read traces
                               (including NON-conforming traces: an empty read before EOF)
   (d) whole sessions on simnet: REAL aioftp.Server + REAL aioftp.Client
@@ -44,16 +47,25 @@ TECHNIQUE = (
     "segmentation, arrival schedule, read sizes, short backend reads and backend flushing; structural facts (open-mode table, "
     "loop bodies, reply position, appe->stor('ab'), reset-exempt verbs, iterator shape, client command sequence) regenerated "
     "from the source by tools/py2v and re-checked by vm_compute; differential correspondence of the extracted model against the "
-    "real Server+Client on an in-memory network with a virtual clock, against real asyncio.StreamReader / BytesIO / files"
+    "real Server+Client on an in-memory network with a virtual clock, against real asyncio.StreamReader / BytesIO / files; "
+    "the worker / client loop bodies translated by tools/py2v/gen_xfer.py into a small statement language (Lib/XferFacts.xstmt) "
+    "with a Coq interpreter (Model/XferProg.v): the hand-written workers are proved to be the denotation of the translated "
+    "programs and exactness is stated on `xf_*_prog Gen.Xfer.facts`; a timed model (Model/TransferTimed.v: clock in Q, ANY "
+    "throttle state machine, ANY arrival instants / latencies) whose read traces are proved conforming, so time provably does "
+    "not enter the byte function"
 )
 LEVEL_TEXT = (
     "Proved for the model (Closed under the global context): C01_stor_exact, C01_stor_exact_conforming, C01_retr_exact, "
     "C01_retr_exact_segs, C01_stor_chunking_irrelevant, C01_retr_chunking_irrelevant, C01_upload_exact, C01_download_exact, "
     "C01_network_reads_conforming, C01_file_reads_conforming, C01_early_stop_impossible, C01_reply_after_close, "
     "C01_visible_after_226, C01_later_retr_sees_new_content, C01_rest_survives, the write_at lemmas, and the closed obligations "
-    "C01_source_facts / C01_verb_modes on the regenerated facts — for every payload, pre-existing content, offset, block size "
+    "C01_source_facts / C01_verb_modes / C01_source_programs on the regenerated facts; C01_model_is_program_denotation, "
+    "C01_stor_prog_exact, C01_retr_prog_exact, C01_upload_prog_exact, C01_download_prog_exact, C01_upload_path_exact, "
+    "C01_download_path_exact (about the translated programs); C01_timed_reads_conforming, C01_timed_stor_exact, "
+    "C01_stor_timing_irrelevant, C01_timed_stor_is_untimed, C01_timed_upload_exact, C01_timed_retr_exact, "
+    "C01_retr_timing_irrelevant (every throttle state machine, every arrival instant, every latency) — for every payload, pre-existing content, offset, block size "
     ">= 1, segmentation, arrival schedule, read-size sequence, short-read sequence and flush behaviour. The model is "
-    "hand-written; its tie to the code is (i) the regenerated structural facts and (ii) sampled + bounded-exhaustive agreement "
+    "hand-written around translated loop programs; its tie to the code is (i) the regenerated structural facts and programs and (ii) sampled + bounded-exhaustive agreement "
     "with the real code (several thousand real transfers per quick run), so the assurance is a proof about the model plus "
     "sampled agreement of model and code."
 )
@@ -61,8 +73,9 @@ LEVEL_NOTE = (
     "Honest level: proof about the model + sampled agreement. The byte transport itself (TCP / the OS / asyncio transports: "
     "bytes arrive in order, once, EOF after the last byte) is MODELLED, not verified; so are io.BytesIO, the OS file, "
     "BufferedWriter flushing at close, StreamReader.read (assumption read_conforming: empty only at EOF) and async-with "
-    "enter/exit order. Throttling and latency are not inputs of the model's byte function — that they do not change the bytes "
-    "is what the correspondence samples. Carved out by hypothesis: REST n + STOR/APPE on a MISSING file (C18/F6) and a second "
+    "enter/exit order. Throttling, latency and stalls are inputs of the TIMED model (any wait/append functions, any arrival "
+    "instants) and are proved not to change the bytes (C01_*_timing_irrelevant); that the real Throttle only sleeps and counts "
+    "(ThrottleStreamIO.read/write bodies) is a regenerated fact, and the sessions with throttles / latency / stalls sample it. Carved out by hypothesis: REST n + STOR/APPE on a MISSING file (C18/F6) and a second "
     "transfer re-using the offset with no command in between (C05/F14)."
 )
 TRUSTED = [
@@ -292,6 +305,7 @@ def case_defaults(case):
         "chunks": [],
         "cblock": None,
         "pre": [],
+        "local_old": None,  # DOWNLOAD: previous content of the client's destination file (None = no such file)
         "stall": None,  # [t, d]: both directions of the data channel deliver nothing from t to t+d (virtual s) after connecting
     }
     c.update(case)
@@ -300,7 +314,7 @@ def case_defaults(case):
 
 def jsonable(case):
     c = dict(case)
-    for k in ("payload", "old"):
+    for k in ("payload", "old", "local_old"):
         if isinstance(c.get(k), (bytes, bytearray)):
             c[k] = {"hex": bytes(c[k]).hex()}
     return c
@@ -308,7 +322,7 @@ def jsonable(case):
 
 def unjson(case):
     c = dict(case)
-    for k in ("payload", "old"):
+    for k in ("payload", "old", "local_old"):
         if isinstance(c.get(k), dict) and "hex" in c[k]:
             c[k] = bytes.fromhex(c[k]["hex"])
     return c
@@ -463,6 +477,9 @@ async def _run_case(net, case, base):
             root.content.append(aioftp.pathio.Node("file", "local.bin", content=io.BytesIO(payload)))
             await client.upload("/local.bin", "/" + FNAME, write_into=True, block_size=case["cblock"] or 8192)
         elif verb == "DOWNLOAD":
+            if case["local_old"] is not None:  # the destination already exists: download() must replace it
+                croot = client.path_io.get_node(pathlib.PurePosixPath("/"))
+                croot.content.append(aioftp.pathio.Node("file", "local.bin", content=io.BytesIO(case["local_old"])))
             await client.download("/" + FNAME, "/local.bin", write_into=True, block_size=case["cblock"] or 8192)
             node = client.path_io.get_node(pathlib.PurePosixPath("/local.bin"))
             res["received"] = None if node is None else node.content.getvalue()
@@ -950,7 +967,8 @@ def gen_session_cases(ctx, scale):
             add(verb="UPLOAD", payload=payload, old=old, block_size=bs, cblock=cb, passive=next(toggle), _plabel=label,
                 backend=rng.choice(["memory", "pathio"]))
             add(verb="DOWNLOAD", payload=payload, block_size=bs, cblock=cb, passive=next(toggle), _plabel=label,
-                backend=rng.choice(["memory", "pathio"]))
+                backend=rng.choice(["memory", "pathio"]),
+                local_old=rng.choice([None, b"x", b"an older local copy, longer than some payloads........"]))
 
     # -- 7. a plain transfer after a completed REST + transfer pair on the same session
     for verb in ("STOR", "APPE", "RETR"):
@@ -1079,6 +1097,8 @@ def session_stream(ctx, xcheck, scale, reps=1):
             ctx.count("latency")
         if c["stall"]:
             ctx.count("stalled_mid_transfer")
+        if c["local_old"] is not None:
+            ctx.count("download_onto_existing_local_file")
         if c["verb"] in ("STOR", "APPE"):
             ctx.count("old_" + ("missing" if c["old"] is None else "shorter" if len(c["old"]) < c["offset"] + len(c["payload"]) else "equal" if len(c["old"]) == c["offset"] + len(c["payload"]) else "longer"))
         check_case(ctx, case, res, mo)
@@ -1152,7 +1172,9 @@ def correspondence(ctx, scale=None):
         "end, beyond end) x verb (upload_stream, append_stream, download_stream, upload(), download()) x server block size (1,3,4,7,"
         "64,default) x client chunking x backend (MemoryPathIO, PathIO, AsyncPathIO, buffering slow-close) x EPSV/PASV x throttles "
         "x latency x mid-transfer stalls x segmentation (every split of payloads up to 5-6 bytes; byte-by-byte; random) on data and control channels x "
-        "pre-existing content (missing, shorter, equal, longer); (e) REST/TYPE/NOOP sequences before RETR vs offset_after. A case "
+        "pre-existing content (missing, shorter, equal, longer); (e) REST/TYPE/NOOP sequences before RETR vs offset_after; (b2) "
+        "timed read traces: 0-6 segments at non-decreasing instants (gaps 0..1000) x scripted wait delays (0..5000) x block size, real "
+        "ThrottleStreamIO.read on the virtual clock vs timed_trace (blocks AND instants). A case "
         "is non-trivial when its full input tuple is distinct (hash); every session case moves real bytes through the real code."
     )
     xcheck = []
